@@ -595,7 +595,7 @@ impl Analyzable for VariantCaseConstructor {
             self.name.analyze(parent.clone())
         };
 
-        let mut scope = Scope::new(parent);
+        let mut scope = Scope::new(parent.clone());
 
         let case = match &self.name.symbol {
             Some(Symbol::VariantCase(x)) => x,
@@ -609,9 +609,18 @@ impl Analyzable for VariantCaseConstructor {
 
         self.scope = Some(Rc::new(scope));
 
-        let fields = self.fields.analyze(self.scope.clone());
+        // field names resolve against the fields of the case; the values (and the
+        // spread source) are ordinary expressions of the enclosing scope, so that
+        // `Foo { x: x }` refers to the surrounding `x` and not to the field itself
+        let mut fields = AnalyzeReport::default();
 
-        let spread = self.spread.analyze(self.scope.clone());
+        for field in self.fields.iter_mut() {
+            fields = fields
+                + field.name.analyze(self.scope.clone())
+                + field.value.analyze(parent.clone());
+        }
+
+        let spread = self.spread.analyze(parent.clone());
 
         name + fields + spread
     }
